@@ -33,7 +33,7 @@ func TestCheck(t *testing.T) {
 	r.Assume("an Authorization header without a colon is not valid basic credentials (RFC 7617) and counts as no credentials")
 	r.Assume("requests with a syntactically invalid identifier (too long, extra path elements) are only checked in the security direction")
 
-	rounds := r.N(1, 4)
+	rounds := r.N(1, 8)
 	for round := 0; round < rounds; round++ {
 		for _, dbKind := range []string{"mapdb", "real"} {
 			w, err := buildWorld(r, dbKind, round)
@@ -85,7 +85,7 @@ func TestCheck(t *testing.T) {
 		"e2e_requestinfo_userinfo_as_assumed": 200,
 		"e2e_requestinfo_sni_as_assumed":      300,
 		"db_calls:real:device-id":             1000,
-		"db_calls:real:linked-ip":             100,
+		"db_calls:real:linked-ip":             80,
 		"db_calls:real:dedicated-ip":          100,
 		"db_calls:real:human-id":              20,
 	} {
